@@ -287,6 +287,34 @@ def systematic(rng, start_index):
             text += g.out
             msgs.append((name, kind, 0x0C00 + idx))
             idx += 1
+    # endless array behind a member that is on the wire but not in the Rust struct (the count of a counted array, a constant, a `self.size` field):
+    # the reader's running size must start with those bytes too
+    for hidden in ("counted-array", "constant", "self-size", "constant+counted-array"):
+        for elem in ("u32", "Guid", "struct-fixed"):
+            g = Gen(rng, idx)
+            g.names = names
+            if elem.startswith("struct"):
+                sname = g.tname("Vs")
+                g.out.append(f"struct {sname} {{\n    u16 {g.name()};\n    Guid {g.name()};\n}} {{\n    versions = \"1.12\";\n}}\n")
+                et = sname
+            else:
+                et = elem
+            body = ""
+            for part in hidden.split("+"):
+                if part == "counted-array":
+                    cnt = g.name()
+                    body += f"    u8 {cnt};\n    u32[{cnt}] {g.name()};\n"
+                elif part == "constant":
+                    body += f"    u16 {g.name()} = 513;\n"
+                else:
+                    body += f"    u32 {g.name()} = self.size;\n"
+            body += f"    {et}[-] {g.name()};\n"
+            kind = "smsg" if idx % 2 else "cmsg"
+            name = f"{kind.upper()}_VERIF_{g.name('').upper()}"
+            g.out.append(f"{kind} {name} = 0x{0x0C00 + idx:04X} {{\n{body}}} {{\n    versions = \"1.12\";\n}}\n")
+            text += g.out
+            msgs.append((name, kind, 0x0C00 + idx))
+            idx += 1
     # self.size shapes: the members in front of a `self.size` field are subtracted from size() by the writer (`self.size() - N`): every
     # constant-size member kind in front — nothing, integers, an enum of every width as declared and UPCAST to a wider integer, a Bool, a Guid,
     # a fixed array — over both usual widths of the size field, with a variable-size tail behind
